@@ -178,7 +178,11 @@ KF8Out(e, sst, xfs) ==
 FileOk(e) == /\ e.outcome = "ok"
              /\ e.sheets = e.osheets                        \* sheet names, in workbook order
              /\ e.names = e.onames                          \* defined names (name, scope), sorted
-SheetOk(e) == /\ \A i \in DOMAIN e.links : LET h == e.links[i] IN h.skip \/ (h.op /\ h.ourl = h.val /\ h.oloc = ~h.ext)
+(* a hyperlink: the cell shows a link whose url is the decoded target, whose tooltip is the tooltip attribute and - where
+   that is decided - whose location flag says whether the target is a place in the workbook *)
+LinkOk(h) == h.skip \/ ~ValidLink(h)
+             \/ (h.op /\ h.ourl = LinkUrl(h) /\ h.otip = h.tip /\ (LinkPlaceDecided(h) => (h.oloc = LinkIsPlace(h))))
+SheetOk(e) == /\ \A i \in DOMAIN e.links : LinkOk(e.links[i])
               /\ e.tcols = e.otcols
 
 Step(e) ==
